@@ -107,13 +107,12 @@ theorem C08_inv_apply (s s' : State) (hinv : InvDict s) (h : applyEntry cfg s = 
 
 /-! ## every history: the invariant, and what a restart then answers
 
-`C08_full_statement` is the property at full strength on the model; `C08_same_answers_partial` proves it
-for every history in which no confirmed candidate is an affixed compound.  What is missing: a compound
-confirmation appends its entry to the user dictionary at once *and* queues it (the updater appends it
-again — the model reproduces the double line of user.dic), so after a restart the dictionary holds the
-compound's word twice where the running one holds it once.  Answers are still equal (candidates are
-de-duplicated by text; decided per case by the executable oracle of the C08 check), but the dictionaries
-are no longer equal and the proof through `InvDict` does not apply. -/
+`C08_full_statement` is the property at full strength on the model.  Until fix c5e9959 a compound confirmation appended
+its entry to the user dictionary at once *and* queued it (the updater appended it again), so after a restart the dictionary
+held the compound's word twice where the running one held it once: `InvDict` failed, the theorem could only be proved for
+histories without compound confirmations (`C08_same_answers_partial`), and the thorough tier of the C08 check found a history
+on the real server after which two equal-score candidates came back in the other order.  With the fix every step is quiet
+(`quiet_all`) and the full statement is a theorem (`C08_full`). -/
 
 /-- Full strength: in every reachable quiescent state, save + restart changes no answer. -/
 def C08_full_statement : Prop :=
@@ -277,9 +276,59 @@ example : (runOps cfg exState exOps).userDict = [⟨[39321], [12363], .noun .com
     (runOps cfg exState exOps).freq.map (fun e => (e.word, e.count)) = [([34442], 1)] := by
   decide +kernel
 
-/-! The hypothesis `QuietHistory` is needed: after a compound confirmation (prefix 御 + 蚊, confirmed and
-applied) the user dictionary holds the compound twice and the restarted dictionary would list its word
-twice where the running one lists it once — `InvDict` is false in that reachable state. -/
+/-- With fix c5e9959 every step is quiet: only the updater touches the user dictionary. -/
+theorem quiet_all (s : State) (op : Op) : QuietStep s op := by
+  cases op with
+  | apply => exact Or.inr rfl
+  | save => left; simp only [stepOp, save]; split <;> rfl
+  | convert ctx input =>
+    left
+    simp only [stepOp]
+    cases hc : convert cfg s ctx input with
+    | none => rfl
+    | some r =>
+      obtain ⟨s', sid, cs⟩ := r
+      unfold convert at hc
+      simp only [Option.map_eq_some_iff, Prod.mk.injEq] at hc
+      obtain ⟨_, _, rfl, _, _⟩ := hc
+      rfl
+  | register k r w =>
+    left
+    simp only [stepOp]
+    cases hr : register cfg s k r w with
+    | none => rfl
+    | some s' =>
+      unfold register at hr
+      simp only [Option.map_eq_some_iff] at hr
+      obtain ⟨e, _, rfl⟩ := hr
+      rfl
+  | confirm sid cid now =>
+    left
+    simp only [stepOp]
+    unfold confirm popSession
+    cases hs : s.sessions.find? (·.sid == sid) with
+    | none => rfl
+    | some sess =>
+      simp only
+      cases hcb : (cid.bind fun i => sess.cands[i]?) with
+      | none => rfl
+      | some cand =>
+        simp only
+        cases independentWord cand.chain <;> cases withAffix cand.chain <;> rfl
+
+theorem quiet_history : ∀ (ops : List Op) (s : State), QuietHistory s ops
+  | [], _ => trivial
+  | op :: t, s => ⟨quiet_all s op, quiet_history t (stepOp cfg s op)⟩
+
+/-- **C08 at full strength on the model: after a save and restart every conversion returns the same candidates in the same
+order, for every history** — registrations, conversions, confirmations (compound confirmations included), updater steps
+and saves in any order. -/
+theorem C08_full : C08_full_statement := by
+  intro s0 s s' ops hinv hs _ hdir hrt h
+  exact C08_same_answers_partial s0 s s' ops hinv hs (quiet_history ops s0) hdir hrt h
+
+/-! The history that used to break the invariant: a compound (prefix 御 + 蚊) is confirmed and applied — the user dictionary
+now holds it once, and the dictionary a restart would build is the running one. -/
 
 def exBase2 : Dict :=
   { std := [([12363], [{ word := [34442], reading := [12363], speech := .noun .common }])], stdTrie := [[12363]],
@@ -289,9 +338,9 @@ def exState2 : State := { exState with base := exBase2, dict := exBase2 }
 
 def exOps2 : List Op := [.convert .normal [12362, 12363], .confirm 0 (some 0) 7, .apply]
 
-example : (runOps cfg exState2 exOps2).userDict.length = 2 ∧ (runOps cfg exState2 exOps2).pending = [] ∧
+example : (runOps cfg exState2 exOps2).userDict.length = 1 ∧ (runOps cfg exState2 exOps2).pending = [] ∧
     (mergeEntries cfg exState2.base (runOps cfg exState2 exOps2).userDict).map (fun d => d.std.map fun p => p.2.length) =
-      some [1, 2] ∧
+      some [1, 1] ∧
     (runOps cfg exState2 exOps2).dict.std.map (fun p => p.2.length) = [1, 1] := by
   decide +kernel
 
